@@ -200,5 +200,76 @@ Section Sound.
   Lemma straight_position_offset : forall s, straight s ->
     current_frame_index (s_rs s) = t_pos (s_tr s) - 3.
   Proof. intros s (_ & _ & _ & H1 & _). exact H1. Qed.
+
+  (** [seek_by] measures from the transport (push) position: three frames ahead of the frame
+      [position()] names *)
+  Lemma seek_by_from_push_position : forall s a, straight s ->
+    seek_by_index A s a =
+      ntoU64 (nmul (nadd (ndiv (nofZ (current_frame_index (s_rs s) + 3)) (nofZ (s_sr s))) a) (nofZ (s_sr s))).
+  Proof.
+    intros s a Hs. unfold seek_by_index. rewrite (straight_position_offset s Hs).
+    replace (t_pos (s_tr s) - 3 + 3) with (t_pos (s_tr s)) by lia. reflexivity.
+  Qed.
+
+  (** ** every history of sound-level operations keeps the invariant: no panic, no hang, every
+      read inside the slice *)
+  Inductive sop := SUpdate | SSeekIndex (i : Z) | SSetLoop (lr : option (Z * Z)).
+  Definition sstep (s : ssound T A) (o : sop) : outcome (ssound T A) :=
+    match o with
+    | SUpdate => update_position A azero fuel s
+    | SSeekIndex i => seek_to_index A azero fuel s i
+    | SSetLoop lr => Ok (set_tr A s (transport_set_loop_region (s_tr s) lr))
+    end.
+  Fixpoint srun (s : ssound T A) (ops : list sop) : outcome (ssound T A) :=
+    match ops with
+    | [] => Ok s
+    | o :: ops' => let! s' := sstep s o in srun s' ops'
+    end.
+  Definition wf_sop (o : sop) : Prop :=
+    match o with
+    | SUpdate => True
+    | SSeekIndex i => 0 <= i /\ i < Z.of_nat fuel
+    | SSetLoop lr => req_loop B lr
+    end.
+
+  Lemma seek_to_index_safe : forall s i, SInv s -> 0 <= i -> i < Z.of_nat fuel ->
+    exists s', seek_to_index A azero fuel s i = Ok s' /\ SInv s'.
+  Proof.
+    intros s i Hs Hi0 Hif. pose proof Hs as (Hok & HNB & HBm & Hfuel & Hwf).
+    unfold seek_to_index. fold (NS s).
+    destruct (seek_safe fuel (NS s) B HNB HBm Hfuel (s_tr s) i Hwf Hi0 Hif) as (t' & Ht' & Hwf' & _).
+    rewrite Ht'. cbn [obind].
+    assert (Hs' : SInv (set_tr A s t')).
+    { unfold SInv, NS. cbn [set_tr s_src s_slice s_tr].
+      split; [exact Hok|]; split; [exact HNB|]; split; [exact HBm|]; split; [exact Hfuel | exact Hwf']. }
+    destruct (is_advancing A (set_tr A s t')).
+    - destruct (push_reads_inside _ Hs') as [Hp _]. rewrite Hp. eexists; split; [reflexivity|].
+      destruct Hs' as (a & b & c & d & e). unfold SInv, NS. cbn [set_rs set_tr s_src s_slice s_tr] in *.
+      split; [exact a|]; split; [exact b|]; split; [exact c|]; split; [exact d | exact e].
+    - eexists; split; [reflexivity | exact Hs'].
+  Qed.
+
+  Lemma srun_safe : forall ops s, SInv s -> Forall wf_sop ops -> exists s', srun s ops = Ok s' /\ SInv s'.
+  Proof.
+    induction ops as [|o ops IH]; intros s Hs Hops; [exists s; split; [reflexivity | exact Hs]|].
+    inversion Hops as [|? ? Ho Hops']; subst. cbn [srun].
+    assert (H1 : exists s1, sstep s o = Ok s1 /\ SInv s1).
+    { destruct o as [|i|lr]; cbn [sstep].
+      - destruct (update_position_spec s Hs) as (t' & _ & _ & _ & Hu & Hi). eauto.
+      - destruct Ho. apply seek_to_index_safe; assumption.
+      - eexists; split; [reflexivity|]. destruct Hs as (a & b & c & d & e0 & e1 & e2).
+        unfold SInv, NS. cbn [set_tr s_src s_slice s_tr transport_set_loop_region t_pos t_playing t_loop].
+        split; [exact a|]; split; [exact b|]; split; [exact c|]; split; [exact d|].
+        split; [exact e0|]. split; [exact e1|]. apply filter_region_wf. exact Ho. }
+    destruct H1 as (s1 & H1 & Hs1). rewrite H1. cbn [obind]. apply IH; assumption.
+  Qed.
 End Sound.
-End Sound.
+
+(** the four closed facts [frame_step_unit] needs, in binary64 and in Q *)
+From KV Require Import Base.IEEE.
+Lemma unit_facts_f64 :
+  @nadd f64 _ n0 n1 = n1 /\ @nleb f64 _ n1 n1 = true /\ @nsub f64 _ n1 n1 = n0 /\ @nleb f64 _ n1 n0 = false.
+Proof. vm_compute. repeat split; reflexivity. Qed.
+Lemma unit_facts_Q :
+  @nadd Q _ n0 n1 = n1 /\ @nleb Q _ n1 n1 = true /\ @nsub Q _ n1 n1 = n0 /\ @nleb Q _ n1 n0 = false.
+Proof. vm_compute. repeat split; reflexivity. Qed.
